@@ -7,6 +7,8 @@ import vlib, layerc as L
 TRUSTED = [
     "Coq 8.16.1 kernel (full .vo build; vm_compute only for examples and witnesses; no native_compute)",
     "tools/srcfacts_c20.py + clang JSON AST: guards, index expressions, loop condition and growth step of src/vector.c, the realloc count and write index of add_test_/add_suite_ (src/suite.c), the growth test and indices of src/breadcrumb.c are re-derived from source on every run; a function whose statement skeleton changed is 'not re-derived' and only the sanitizer correspondence covers it",
+    "tools/srcfacts_buffers.py + clang JSON AST: every writable char array of the reporters, tools and helpers and every call that writes a string into one (size arguments, format conversions with their widest output, literal and caller-supplied arguments, inlined helper calls, callbacks as loops) is re-derived from source on every run as a program of coq/Buffers.v; functions it cannot express are listed in coverage.buffer_table.unmodelled",
+    "Buffers.step is the assumed behaviour of the C library calls: sprintf/strcpy/strcat store the text and its NUL, snprintf/vsnprintf/fgets/strftime at most n bytes NUL included, strncat at most n characters and a NUL, `sizeof - strlen - k` wraps as size_t",
     "extraction: ExtrOcamlBasic only; ocaml/h_vector.ml glue",
     "correspondence: harness/vector_vm.c and harness/scn_driver.c built with AddressSanitizer+UBSan (-fno-sanitize-recover=all) against a sanitizer build of /repo's working tree; differential testing",
     "modelled, not verified: realloc (keeps the common prefix), the C semantics of everything outside the modelled containers - for the rest of cgreen's code the sanitizer runs are testing, not proof (no C semantics such as VST/CompCert is installed)",
@@ -183,8 +185,9 @@ def check_C20(chk):
     build = vlib.build_repo("asan")
     vm = vlib.build_driver("vector_vm", build)
     scn = vlib.build_driver("scn_driver", build, libs=("-lcgreen", "-lxml2"))
-    chk.prove(["Properties_C20.v"])
+    chk.prove(["Properties_C20.v", "Properties_C20_buffers.v"])
     chk.cov["trusted_base"] = TRUSTED + ["axioms: see coverage.print_assumptions"]
+    buffer_table(chk)
     step = 100
     try:
         m = re.search(r"Definition vector_src : vsrc :=\s*mkvsrc \((\d+)\)", open(os.path.join(vlib.COQ, "Gen", "Facts.v")).read())
@@ -277,6 +280,72 @@ def check_C20(chk):
                           dict(rp, stderr=r.stderr[-800:], stdout=r.stdout[-400:]))
     tool_runs(chk, build)
     return chk.finish()
+
+
+# functions with character arrays that tools/srcfacts_buffers.py cannot express as a Buffers.v program; the
+# sanitizer runs below carry them (indent: printerdepth runs; the cdash reporter is outside C20's anchors)
+KNOWN_UNMODELLED = {"src/xml_reporter.c:indent", "src/cdash_reporter.c:cdash_destroy_reporter",
+                    "src/cdash_reporter.c:create_cdash_reporter"}
+
+
+def _names_in(text):
+    return ["".join(chr(int(x)) for x in re.findall(r"(\d+)%N", m)) for m in re.findall(r"\[((?:\d+%N(?:; )?)+)\]", text)]
+
+
+def buffer_table(chk):
+    """what the buffer translator produced on this run, and - when the table does not pass the analysis - which
+    functions fail it"""
+    facts = os.path.join(vlib.COQ, "Gen", "Facts.v")
+    try:
+        text = open(facts).read()
+    except OSError:
+        return
+    m = re.search(r"Definition buffer_unmodelled : list \(list N\) :=\s*\(\*(.*?)\*\)\s*(\[.*?\])\.\n", text, re.S)
+    n_bufs = len(re.findall(r"%N", (re.search(r"Definition buffer_caps : list N :=\s*(.*?)\.\n", text, re.S) or [None, ""])[1]))
+    n_progs = len(re.findall(r"mkfp ", text))
+    chk.cov["buffer_table"] = {"buffers": n_bufs, "function_programs": n_progs}
+    gen = chk.cov.get("gen_items", {})
+    for k in ("buffer_caps", "buffer_locals", "buffer_progs", "buffer_unmodelled"):
+        if not str(gen.get(k, "")).startswith("derived"):
+            chk.notes.append("%s: %s" % (k, gen.get(k)))
+    if m:
+        unm = set(_names_in(m.group(2)))
+        chk.cov["buffer_table"]["unmodelled"] = sorted(unm)
+        chk.cov["buffer_table"]["unmodelled_reasons"] = m.group(1).strip()[:1500]
+        new = unm - KNOWN_UNMODELLED
+        if new:
+            chk.disagreement("the buffer translator can no longer express %s (%s): the theorem C20_formatting_buffers_safe does not cover "
+                             "what these functions do with their character arrays" % (", ".join(sorted(new)), m.group(1).strip()[:400]),
+                             {"unmodelled_now": sorted(unm), "known": sorted(KNOWN_UNMODELLED),
+                              "how": "python3 tools/srcfacts.py; see buffer_unmodelled in coq/Gen/Facts.v"})
+    if any("Properties_C20_buffers.v" in b for b in chk.proof_broken):
+        # name the functions whose program the analysis rejects
+        d = vlib.private_dir("buf")
+        try:
+            open(os.path.join(d, "Q.v"), "w").write(
+                "From Coq Require Import List NArith Bool.\nFrom CgreenVerif Require Import Buffers.\nFrom CgreenVerif.Gen Require Import Facts.\nImport ListNotations.\nSet Printing Width 100000.\n"
+                "Eval vm_compute in map fp_name (filter (fun f => negb (fprog_ok buffer_caps buffer_locals f)) buffer_progs).\n"
+                "Eval vm_compute in map (fun f => first_bad buffer_caps buffer_locals 5000 f) (filter (fun f => negb (fprog_ok buffer_caps buffer_locals f)) buffer_progs).\n")
+            p = vlib.sh(["coqc", "-Q", vlib.COQ, "CgreenVerif", "Q.v"], cwd=d, timeout=300)
+            out = p.stdout.replace("\n", " ")
+            first, _, second = out.partition(": list (list N)")
+            bad = _names_in(first)
+            wit = re.findall(r"(Some \((?:Overflow|UninitRead) [^)]*\)|None)", second)
+            chk.cov["buffer_table"]["rejected_functions"] = bad
+            where = re.search(r"\(\* buffers: (.*?) \*\)", text, re.S)
+            names = dict(x.split(" = ", 1) for x in where.group(1).split("; ")) if where else {}
+            for i, fn in enumerate(bad):
+                w = wit[i] if i < len(wit) else "None"
+                m2 = re.match(r"Some \(Overflow (\d+) (\d+)", w)
+                if m2:
+                    desc = ("formatting buffer: in the model translated from the current source, %s writes %s byte(s) past the end of %s when every "
+                            "caller-supplied string is 5000 characters long and every number as wide as its type allows" % (fn, m2.group(2), names.get(m2.group(1), "buffer " + m2.group(1))))
+                    chk.violation("buffer-model:%s" % fn, desc, {"function": fn, "buffer": names.get(m2.group(1)), "bytes_past_end": int(m2.group(2)),
+                                  "how": "model-level witness: coq/Gen/Facts.v (buffer_progs) and Buffers.first_bad; the sanitizer runs may or may not reach it (a count of 10 digits, colours on, ...)"})
+                else:
+                    chk.notes.append("buffer analysis rejects %s; exploring its program with 5000-character strings finds: %s" % (fn, w))
+        finally:
+            shutil.rmtree(d, ignore_errors=True)
 
 
 def tool_runs(chk, build):
